@@ -233,7 +233,7 @@ Section Wrapper.
 
   Lemma handle_single_invalid l j :
     (forall rq, validate pok j <> VOk rq) ->
-    handle_single fixed pok ms call l j = (SResp (mkResp None (PError E_INVALID)), l).
+    handle_single fixed pok ms call l j = (SResp (mkResp None (PError E_INVALID d_text)), l).
   Proof.
     intros H. unfold handle_single. destruct (validate _ j) as [rq| |]; [exfalso; exact (H rq eq_refl)|reflexivity..].
   Qed.
@@ -241,8 +241,8 @@ Section Wrapper.
   Definition payload_of (cr : call_result) : payload :=
     match cr with
     | CallOk r => PResult r
-    | CallTypeError ok => if ok then PError E_PARAMS else PBad
-    | CallOther ok => if ok then PError E_APP else PBad
+    | CallTypeError d => match d with Some x => PError E_PARAMS x | None => PBad end
+    | CallOther d => match d with Some x => PError E_APP x | None => PBad end
     | CallUnserializable => PBad
     end.
 
@@ -251,8 +251,8 @@ Section Wrapper.
     validate (vpok v pok) j = VOk rq ->
     handle_single v pok ms call l j =
     match get_method ms (r_method rq) with
-    | TNotFound => (answer rq (PError E_NOT_FOUND), l)
-    | TPlain => (answer rq (PError E_PARAMS), l)
+    | TNotFound => (answer rq (PError E_NOT_FOUND d_text), l)
+    | TPlain => (answer rq (PError E_PARAMS d_not_callable), l)
     | TCall e => (answer rq (payload_of (call l e (r_params rq))), l ++ [e])
     end.
   Proof.
@@ -315,7 +315,7 @@ Section Wrapper.
     - destruct (v_catch_validation v); cbn; intros H; [injection H as <-; reflexivity|discriminate].
   Qed.
 
-  Lemma error_obj_ok c : error_ok_b (error_obj c) = true.
+  Lemma error_obj_ok c d : error_ok_b (error_obj c d) = true.
   Proof. reflexivity. Qed.
 
   Lemma wire_ok r : resp_good r = true -> response_ok_b (wire r) = true.
@@ -482,14 +482,14 @@ Section Wrapper.
   Qed.
 
   (* T2 *)
-  Definition error_doc (i : option rid) (c : Z) : json := wire (mkResp i (PError c)).
+  Definition error_doc (i : option rid) (c : Z) (d : json) : json := wire (mkResp i (PError c d)).
 
-  Lemma parse_error_lemma : handle_json fixed pok ms call ParseFail = (OBytes (error_doc None E_PARSE), []).
+  Lemma parse_error_lemma : handle_json fixed pok ms call ParseFail = (OBytes (error_doc None E_PARSE JNull), []).
   Proof. reflexivity. Qed.
 
   Lemma invalid_request_lemma j :
     (forall l, j <> JArr l) -> (forall rq, validate pok j <> VOk rq) ->
-    handle_json fixed pok ms call (Parsed j) = (OBytes (error_doc None E_INVALID), []).
+    handle_json fixed pok ms call (Parsed j) = (OBytes (error_doc None E_INVALID d_text), []).
   Proof.
     intros Hna Hv. cbn [handle_json]. unfold handle_data.
     destruct j as [| | | | |l|o]; try (rewrite (handle_single_invalid [] _ Hv); reflexivity).
@@ -497,7 +497,7 @@ Section Wrapper.
   Qed.
 
   Lemma empty_batch_lemma :
-    handle_json fixed pok ms call (Parsed (JArr [])) = (OBytes (error_doc None E_INVALID), []).
+    handle_json fixed pok ms call (Parsed (JArr [])) = (OBytes (error_doc None E_INVALID d_text), []).
   Proof. reflexivity. Qed.
 
   (* a structurally valid single request with an id *)
@@ -505,8 +505,8 @@ Section Wrapper.
     validate pok j = VOk rq -> r_id rq = Some i ->
     handle_json fixed pok ms call (Parsed j) =
     match get_method ms (r_method rq) with
-    | TNotFound => (OBytes (error_doc (Some i) E_NOT_FOUND), [])
-    | TPlain => (OBytes (error_doc (Some i) E_PARAMS), [])
+    | TNotFound => (OBytes (error_doc (Some i) E_NOT_FOUND d_text), [])
+    | TPlain => (OBytes (error_doc (Some i) E_PARAMS d_not_callable), [])
     | TCall e => (OBytes (wire (mkResp (Some i) (payload_of (call [] e (r_params rq))))), [e])
     end.
   Proof.
@@ -669,8 +669,8 @@ Example nv_batch :
          (Parsed (JArr [req "o.pub" (Some (JInt 1)); req "o.pub" None; JInt 5; req "o.uns" (Some (JStr (lit "b")));
                         req "o.pub" (Some (JInt 2))])))
   = OBytes (JArr [wire (mkResp (Some (IdInt 1)) (PResult (JInt 0)));
-                  wire (mkResp None (PError E_INVALID));
-                  wire (mkResp (Some (IdStr (lit "b"))) (PError E_APP));
+                  wire (mkResp None (PError E_INVALID d_text));
+                  wire (mkResp (Some (IdStr (lit "b"))) PBad);
                   wire (mkResp (Some (IdInt 2)) (PResult (JInt 3)))]).
 Proof. vm_compute. reflexivity. Qed.
 
@@ -681,5 +681,5 @@ Proof. reflexivity. Qed.
 (* a request whose params do not decode (a tagged object that is not a valid model) *)
 Example nv_bad_params :
   handle_json fixed (fun _ => false) demo_mounts demo_call (Parsed (req "o.pub" (Some (JInt 1))))
-  = (OBytes (error_doc None E_INVALID), []).
+  = (OBytes (error_doc None E_INVALID d_text), []).
 Proof. reflexivity. Qed.
